@@ -157,6 +157,20 @@ def workload(ctx, lentil):
             ctx.check(bool(I.min() >= 0), 'intensity>=0', 'fft|negative-intensity', 'negative intensity', desc)
         except Exception as e:
             ctx.check(False, 'fft:full-period', f'fft|raises={type(e).__name__}', str(e), desc)
+        # FFT with a scratch buffer that is reused (dirty) across the cases of this history
+        try:
+            need = (Nr * os_, Nc * os_)
+            sc = ctx.notes.get('_scratch')
+            if sc is None or sc.shape[0] < need[0] or sc.shape[1] < need[1]:
+                sc = rng.normal(size=(need[0] + 7, need[1] + 11)) + 1j * rng.normal(size=(need[0] + 7, need[1] + 11))
+                ctx.notes['_scratch'] = sc
+            out = lentil.propagate_fft(w, du, oversample=os_, scratch=sc)
+            with probe.quiet():
+                I = out.intensity
+            ctx.close('fft:full-period', np.array([I.sum()]), np.array([P]), 1e-10, 'fft|full-period|reused-scratch',
+                      'FFT propagation with a reused scratch buffer does not conserve the input power', desc, scale=P)
+        except Exception as e:
+            ctx.check(False, 'fft:full-period', f'fft-scratch|raises={type(e).__name__}', str(e), desc)
         # nested centred windows (recorded; checked offline in finish)
         if i % 2 == 0:
             ctx.bucket('nested')
@@ -225,3 +239,4 @@ def finish(ctx, lentil):
         ctx.check(okm, 'nested:monotone', 'nested|monotone',
                   'energies of nested centred windows are not monotone, non-negative and bounded by the input power', fam)
     ctx.notes['families'] = len(ctx.notes.get('families', []))
+    ctx.notes.pop('_scratch', None)
